@@ -46,6 +46,10 @@ def run_property(prop_id, tier="quick", seed=0, only=None, jobs=None, keep_going
         write_evidence(prop_id, tier, seed, mod, [], time.time() - t0, verdict, fatal=str(e))
         return 2
     proofs = [p for p in mod.proofs if (tier == "thorough" or p.tier == "quick")]
+    global EVID
+    if only or os.environ.get("VERIF_REPO"):
+        # partial runs and runs against a scratch copy of the repository never overwrite the evidence of /repo
+        EVID = os.path.join(core.WORK, "evidence")
     if only:
         proofs = [p for p in proofs if p.name in only]
     jobs = jobs or int(os.environ.get("VERIF_JOBS", "8"))
